@@ -81,12 +81,12 @@ Definition y_ok8 (x z : Z) (u : N) : bool := let v := (16 * to_signed 8 u)%Z in
 Definition z_ok8 (x y : Z) (u : N) : bool := let v := (16 * to_signed 8 u)%Z in
   forallb (fun ax => chk (Frame_z (mk_Frame (encode_frame (FData ax false x y v)))) (want_axis (FData ax false x y v) 2)) AXES.
 
-Lemma x12 y z : forall u, u < 4096 -> x_ok12 y z u = true. Proof. apply all_u12_sound. vm_compute. reflexivity. Qed.
-Lemma y12 x z : forall u, u < 4096 -> y_ok12 x z u = true. Proof. apply all_u12_sound. vm_compute. reflexivity. Qed.
-Lemma z12 x y : forall u, u < 4096 -> z_ok12 x y u = true. Proof. apply all_u12_sound. vm_compute. reflexivity. Qed.
-Lemma x8 y z : forall u, u < 256 -> x_ok8 y z u = true. Proof. apply all_u8_sound. vm_compute. reflexivity. Qed.
-Lemma y8 x z : forall u, u < 256 -> y_ok8 x z u = true. Proof. apply all_u8_sound. vm_compute. reflexivity. Qed.
-Lemma z8 x y : forall u, u < 256 -> z_ok8 x y u = true. Proof. apply all_u8_sound. vm_compute. reflexivity. Qed.
+Lemma x12 y z : forall u, u < 4096 -> x_ok12 y z u = true. Proof. apply all_u12_sound. timeout 300 (vm_compute; reflexivity). Qed.
+Lemma y12 x z : forall u, u < 4096 -> y_ok12 x z u = true. Proof. apply all_u12_sound. timeout 300 (vm_compute; reflexivity). Qed.
+Lemma z12 x y : forall u, u < 4096 -> z_ok12 x y u = true. Proof. apply all_u12_sound. timeout 300 (vm_compute; reflexivity). Qed.
+Lemma x8 y z : forall u, u < 256 -> x_ok8 y z u = true. Proof. apply all_u8_sound. timeout 300 (vm_compute; reflexivity). Qed.
+Lemma y8 x z : forall u, u < 256 -> y_ok8 x z u = true. Proof. apply all_u8_sound. timeout 300 (vm_compute; reflexivity). Qed.
+Lemma z8 x y : forall u, u < 256 -> z_ok8 x y u = true. Proof. apply all_u8_sound. timeout 300 (vm_compute; reflexivity). Qed.
 
 Lemma mult16_enum (P : Z -> Prop) : (forall u, u < 256 -> P (16 * to_signed 8 u)%Z) -> forall v, in12 v -> (v mod 16 = 0)%Z -> P v.
 Proof.
